@@ -138,6 +138,8 @@ def do_task(sb, t):
             cfg = pp.PrettyPrintConfig(out=io.StringIO(), use_color=uc)
             rows[str(uc)] = [cfg.KEEP, cfg.REMOVE, cfg.ADD, cfg.INFO, cfg.RESET]
         res['constants'] = rows
+    elif op == 'cli-enc':
+        res.update(do_cli_enc(sb, t))
     elif op == 'cli':
         res.update(do_cli_git(sb, t) if t.get('app') == 'nbdiff-git' else do_cli_merge(sb, t) if t.get('app') == 'nbmerge' else do_cli(sb, t))
     else:
@@ -312,6 +314,76 @@ def do_cli_git(sb, t):
     finally:
         os.environ['PATH'] = sb.orig_path
         os.chdir(cwd)
+        shutil.rmtree(d, ignore_errors=True)
+
+ENC_MODULES = {'nbdiff': 'nbdime.nbdiffapp', 'nbshow': 'nbdime.nbshowapp', 'nbshow-stdin': 'nbdime.nbshowapp', 'nbmerge-decisions': 'nbdime.nbmergeapp',
+               'nbmerge-stdout': 'nbdime.nbmergeapp', 'diffdriver': 'nbdime.vcs.git.diffdriver', 'mergedriver': 'nbdime.vcs.git.mergedriver'}
+_enc_probe = {}
+
+def do_cli_enc(sb, t):
+    """the entry points as PROCESSES of their own (python -m <module>), so that they meet real standard streams: the encoding of
+    sys.stdout / sys.stderr / sys.stdin is fixed by the environment of each run (locale variables, PYTHONUTF8,
+    PYTHONCOERCECLOCALE, PYTHONIOENCODING; every other LC_* / LANG / PYTHON* variable of the harness is removed), stdout is a
+    pipe or a file.  t['nbs'] are written as UTF-8 files named t['names']; the drivers are called with the argument lists git
+    uses (diff: path old-file old-hex old-mode new-file new-hex new-mode; merge: %O %A %B %L %P).  Per run: exit status, stdout
+    and stderr decoded with the codec the environment stands for, the encoding Python really gave stdout (probe), and for the
+    merge driver whether the file it leaves in %A is a UTF-8 JSON notebook."""
+    import subprocess, codecs
+    d = tempfile.mkdtemp(prefix='nbv_c16enc_')
+    try:
+        base_env = {k: v for k, v in os.environ.items() if not k.startswith(('LC_', 'PYTHON')) and k not in ('LANG', 'LANGUAGE')}
+        base_env.update(PYTHONPATH=os.environ.get('PYTHONPATH', ''), PYTHONDONTWRITEBYTECODE='1', PYTHONHASHSEED='0', PATH=sb.orig_path)
+        def write_inputs():
+            files = []
+            for i, (nb, name) in enumerate(zip(t['nbs'], t['names'])):
+                p = os.path.join(d, name)
+                with open(p, 'w', encoding='utf8') as fh: json.dump(nb, fh, indent=1, ensure_ascii=bool(t.get('ascii_json')))
+                files.append(p)
+            return files
+        files = write_inputs()
+        app = t['app']; recs = []
+        for k, run in enumerate(t['runs']):
+            env = dict(base_env); env.update(run['env']['vars'])
+            codec = run['env']['codec']
+            pk = json.dumps(run['env']['vars'], sort_keys=True)
+            if pk not in _enc_probe:
+                pr = subprocess.run([sys.executable, '-c', 'import sys; print(sys.stdout.encoding, sys.stdout.errors)'], env=env, capture_output=True, timeout=120)
+                _enc_probe[pk] = pr.stdout.decode('ascii', 'replace').strip()
+            argv = run['argv']; stdin = subprocess.DEVNULL
+            if app in ('nbdiff',): cmd = files[:2] + argv
+            elif app == 'nbshow': cmd = files[:1] + argv
+            elif app == 'nbshow-stdin': cmd = ['-'] + argv; stdin = open(files[0], 'rb')
+            elif app == 'nbmerge-decisions': cmd = ['--decisions'] + argv + files[:3]
+            elif app == 'nbmerge-stdout': cmd = argv + files[:3]
+            elif app == 'diffdriver': cmd = ['diff'] + argv + [t.get('path') or t['names'][1], files[0], '1' * 40, '100644', files[1], '2' * 40, '100644']
+            elif app == 'mergedriver':
+                files = write_inputs()          # the driver overwrites %A
+                cmd = ['merge'] + argv + [files[0], files[1], files[2], '7', t.get('path') or 'nb.ipynb']
+            else: raise ValueError(app)
+            rec = {'stream': _enc_probe[pk]}
+            sink = None
+            try:
+                if run.get('sink') == 'file':
+                    sink = open(os.path.join(d, 'stdout.%d' % k), 'w+b')
+                p = subprocess.run([sys.executable, '-m', ENC_MODULES[app]] + cmd, cwd=d, env=env, stdin=stdin,
+                                   stdout=sink or subprocess.PIPE, stderr=subprocess.PIPE, timeout=300)
+                if sink: sink.seek(0); out = sink.read()
+                else: out = p.stdout
+                rec.update(rc=p.returncode, out=out.decode(codec, 'replace'), err=p.stderr.decode(codec, 'replace')[-6000:])
+            except subprocess.TimeoutExpired:
+                rec['timeout'] = True
+            finally:
+                if sink: sink.close()
+                if stdin is not subprocess.DEVNULL: stdin.close()
+            if app == 'mergedriver' and 'rc' in rec:
+                try:
+                    with open(files[1], encoding='utf8') as fh: m = json.load(fh)
+                    rec['merged_ok'] = isinstance(m, dict) and isinstance(m.get('cells'), list)
+                except Exception as e:
+                    rec['merged_ok'] = False; rec['merged_err'] = '%s: %s' % (type(e).__name__, str(e)[:200])
+            recs.append(rec)
+        return {'recs': recs}
+    finally:
         shutil.rmtree(d, ignore_errors=True)
 
 def main():
